@@ -36,7 +36,8 @@ func NewPacketFactoryCopy() *PacketFactoryCopy {
 		},
 		payloadPool: &sync.Pool{
 			New: func() any {
-				buf := make([]byte, maxPayloadLen)
+				// leave room for the RTX original-sequence-number prefix in front of a maximal payload
+				buf := make([]byte, maxPayloadLen+rtxSsrcByteLength)
 
 				return &buf
 			},
@@ -52,9 +53,6 @@ func (m *PacketFactoryCopy) NewPacket(
 	header *rtp.Header, payload []byte, rtxSsrc uint32, rtxPayloadType uint8,
 ) (*RetainablePacket, error) {
 	if len(payload) > maxPayloadLen {
-		return nil, io.ErrShortBuffer
-	}
-	if rtxSsrc != 0 && rtxPayloadType != 0 && len(payload) > maxPayloadLen-rtxSsrcByteLength {
 		return nil, io.ErrShortBuffer
 	}
 
